@@ -104,7 +104,7 @@ def parse_telegram_url(url):
                 else:
                     return None
 
-            elif len(path) == 3 and is_telegram_message_id(path[2]):
+            elif len(path) == 3 and path[1] and is_telegram_message_id(path[2]):
                 return TelegramMessage(name=path[1], id=path[2])
 
             elif len(path) == 2:
